@@ -11,6 +11,14 @@ StartsSim3 == {0, 1, 2}
 LContig == {<<"contig">>}
 \* number types x flavours ride in the layout descriptor
 LTypes == {<<"contig", "nt", t, f>> : t \in {"int8", "uint8", "char8", "int16", "uint16", "int32", "uint32", "float32", "float64"}, f \in {"std", "le", "native"}}
+\* storage configurations for the 2x3 and 3-element datasets: every chunk shape, cache sizes, coders, external, n-bit
+LChunk2 == {<<"chunk", a, b, k>> : a \in 1..2, b \in 1..3, k \in {1, 3}}
+LChunk1 == {<<"chunk", a, k>> : a \in 1..3, k \in {1, 2}}
+LComp == {<<"comp", cd>> : cd \in {"none", "rle", "skphuff", "deflate"}}
+LChunkComp2 == {<<"chunkcomp", cd, a, b, 2>> : cd \in {"rle", "skphuff", "deflate"}, a \in {1, 2}, b \in {2, 3}}
+LOther == {<<"contig">>, <<"ext", 0>>, <<"ext", 7>>, <<"nbit", 12, "nt", "int16", "std">>, <<"blk", 8>>, <<"blk", 16>>}
+LAll == LChunk2 \cup LChunk1 \cup LComp \cup LChunkComp2 \cup LOther
+ShapesLay == {<<3>>, <<2, 3>>, <<0, 2>>}
 Ev(o, a, x) == [op |-> o, args |-> a, out |-> x]
 Ones(r) == [d \in 1..r |-> 1]
 Zeros(r) == [d \in 1..r |-> 0]
